@@ -71,6 +71,30 @@ func VC15DumbMemPut(k int) {
 	vAssert("result-aliases", r.Get(b) == want)
 }
 
+// Put whose data is a window of the same memory (Put is variadic: dm[src:src+k]...
+// passes the window itself): the bytes the window held at the call are stored,
+// also when source and destination overlap.
+func VC15DumbMemPutSelf(k int) {
+	n := vSymLen("len")
+	vAssume(vAnd(n >= 0, n <= 65536))
+	dm := DumbMemory(vBytesN("dm", n))
+	ref := DumbMemory(vBytesN("dm", n))
+	src := vSymLen("src")
+	vAssume(vAnd(vAnd(src >= 0, src <= 65536), src+k <= n))
+	addr := vU16("addr")
+	vAssume(int(addr)+k <= n)
+	r := dm.Put(addr, dm[src:src+k]...)
+	vAssert("returns-receiver", vAnd(len(r) == n, len(dm) == n))
+	b := vU16("b")
+	want := vDumbModel(ref, n, b)
+	for i := 0; i < k; i++ {
+		if vCase(int(b) == int(addr)+i) {
+			want = ref[src+i]
+		}
+	}
+	vAssert("put-self-then-get", dm.Get(b) == want)
+}
+
 // ---- DumbIO -------------------------------------------------------------------------
 
 func VC15DumbIO() {
